@@ -34,6 +34,7 @@ structure RawTree where
 inductive TreeErr where
   | noHierarchy | badKeys | nonStrNode | orphan | missingChild | twoParents
   | dupRows | repeatedChild | emptyHierarchy | noChildren | dupLevel | noNodes
+  | badParentLevel | missingLevel
   | flatTree | levelNotInTree | isLeafLevel | badLevel | badNode
   deriving Repr, BEq, DecidableEq, Inhabited
 
@@ -44,6 +45,7 @@ def TreeErr.name : TreeErr → String
   | .dupRows => "dupRows" | .repeatedChild => "repeatedChild"
   | .emptyHierarchy => "emptyHierarchy" | .noChildren => "noChildren"
   | .dupLevel => "dupLevel" | .noNodes => "noNodes"
+  | .badParentLevel => "badParentLevel" | .missingLevel => "missingLevel"
   | .flatTree => "flatTree"
   | .levelNotInTree => "levelNotInTree" | .isLeafLevel => "isLeafLevel"
   | .badLevel => "badLevel" | .badNode => "badNode"
@@ -370,6 +372,81 @@ def fromRecords (cols : List Level) (recs : List (List Node)) : Except TreeErr R
   match t.validate with
   | .error e => .error e
   | .ok _ => .ok t
+
+/-! ### the data-release CSV route (`taxonomy/data_release_utils.py`,
+`TaxonomyTree.from_data_release` with `cell_metadata_path=None`) -/
+
+/-- one row of `cluster_annotation_term.csv`: `label`,
+`cluster_annotation_term_set_label`, `parent_term_label`,
+`parent_term_set_label` -/
+structure LinkRow where
+  label : Node
+  level : Level
+  parent : Node
+  parentLevel : Level
+  deriving Repr, BEq, DecidableEq, Inhabited
+
+/-- `child_to_parent = {l0: l1 for l0, l1 in zip(hierarchy[1:], hierarchy[:-1])}[l]`
+(a later entry of the comprehension wins) -/
+def levelAbove (h : List Level) (l : Level) : Option Level :=
+  ((levelPairs h).reverse.find? (fun p => p.2 == l)).map (·.1)
+
+/-- `result[parent_level][parent].add(label)`: dicts in insertion order, the
+set as a duplicate-free list -/
+def addLink (acc : List (Level × LevelMap)) (pl : Level) (p c : Node) :
+    List (Level × LevelMap) :=
+  match acc.lookup pl with
+  | none => acc ++ [(pl, [(p, [c])])]
+  | some m => setLevel acc pl (dictAdd m p c true)
+
+/-- `get_tree_above_leaves`: rows of other term sets are skipped, a row whose
+parent level is not the level directly above is an error, the child sets are
+returned sorted -/
+def treeAboveLeaves (h : List Level) :
+    List LinkRow → List (Level × LevelMap) → Except TreeErr (List (Level × LevelMap))
+  | [], acc => .ok (acc.map (fun (l, m) => (l, m.map (fun (n, cs) => (n, sortNat cs)))))
+  | r :: rs, acc =>
+    match levelAbove h r.level with
+    | none => treeAboveLeaves h rs acc
+    | some pl =>
+      if r.parentLevel != pl then .error .badParentLevel
+      else treeAboveLeaves h rs (addLink acc pl r.parent r.label)
+
+/-- `data[parent_level] = rough_tree[parent_level]` for every level pair
+(`KeyError` when no row mentions the level) -/
+def pickLevels (rough : List (Level × LevelMap)) :
+    List (Level × Level) → Except TreeErr (List (Level × LevelMap))
+  | [] => .ok []
+  | (pl, _) :: ps =>
+    match rough.lookup pl with
+    | none => .error .missingLevel
+    | some m =>
+      match pickLevels rough ps with
+      | .error e => .error e
+      | .ok rest => .ok ((pl, m) :: rest)
+
+/-- `from_data_release(cell_metadata_path=None, …)` before validation: the
+leaves are the children listed at `hierarchy[-2]`, without cells -/
+def fromLinksRaw (h : List Level) (rows : List LinkRow) : Except TreeErr RawTree :=
+  match treeAboveLeaves h rows [] with
+  | .error e => .error e
+  | .ok rough =>
+    match pickLevels rough (levelPairs h) with
+    | .error e => .error e
+    | .ok above =>
+      match h.getLast?, h.dropLast.getLast? with
+      | some leaf, some pl =>
+        let kids := (((above.lookup pl).getD []).flatMap (·.2)).eraseDups
+        .ok { hierarchy := h, levels := above ++ [(leaf, kids.map (fun c => (c, [])))] }
+      | _, _ => .error .emptyHierarchy
+
+/-- `TaxonomyTree.from_data_release(None, …)`: the constructor validates -/
+def fromLinks (h : List Level) (rows : List LinkRow) : Except TreeErr RawTree :=
+  match fromLinksRaw h rows with
+  | .error e => .error e
+  | .ok t => match t.validate with
+    | .error e => .error e
+    | .ok _ => .ok t
 
 end RawTree
 end CTM
